@@ -7,8 +7,26 @@
    whether stream management was negotiated.  [abs sm ops] is the abstract FIFO machine of Spec/SendQueueSpec.v on
    the same history; its ghost log records every element ever queued, in queue order, with its fate.
    All statements are for every history (unbounded length, every schedule). *)
-Require Import LV.Common.Bytes LV.Model.SendQueueModel LV.Spec.SendQueueSpec LV.Proofs.SendQueueProofs.
+Require Import LV.Common.Bytes LV.Gen.Gen_sendqueue LV.Model.SendQueueModel LV.Spec.SendQueueSpec LV.Proofs.SendQueueProofs.
 Local Open Scope Z_scope.
+
+(* The statements of the queue code that the model mirrors are found verbatim (modulo comments and white space) in
+   src/conn.c and src/event.c of the tree under verification (re-extracted on every run into Gen/Gen_sendqueue.v by
+   tools/gens/gen_sendqueue.py), the owner values of common.h make "== USER", "& USER" and "& SM" the model's
+   is_user / is_sm, and req_ack is the text the specification expects.  In particular
+   src_loop_head_prev_cleared says fixes/C06-1.patch is in the tree: the theorems below are about [run true]. *)
+Theorem source_is_the_modelled_code :
+  (req_ack_text = spec_req_ack /\
+   forall o, is_user o = Z.eqb (owner_code o) q_user /\
+             is_user o = negb (Z.eqb (Z.land (owner_code o) q_user) 0) /\
+             is_sm o = negb (Z.eqb (Z.land (owner_code o) q_sm) 0)) /\
+  (src_send_counts = true /\ src_send_links_tail = true /\ src_send_piggyback = true) /\
+  (src_loop_write = true /\ src_loop_written_accumulates = true /\ src_loop_wip_then_stop = true /\
+   src_loop_counts = true /\ src_loop_moves_to_smq = true /\ src_loop_head_prev_cleared = true) /\
+  (src_len_body = true /\ src_unlink_body = true /\ src_drop_single_wip = true /\ src_drop_choice = true /\
+   src_drop_skips_wip_head = true /\ src_drop_linked_request = true).
+Proof. exact Gen_sendqueue_ok. Qed.
+Print Assumptions source_is_the_modelled_code.
 
 (* The linkage invariant holds in every reachable state: the model never touches a freed or unallocated cell and
    never runs out of fuel (no cycle), every output equals the abstract machine's, and the doubly linked structure
